@@ -1,6 +1,7 @@
 import AthlibVerif.Props.C02
 import AthlibVerif.Lemmas.RankOrder
 import AthlibVerif.Lemmas.Interleave
+import AthlibVerif.Lemmas.CardLog
 /-!
 # C08 — High jump: replaying the log or the card, in any jumping order, rebuilds it
 
@@ -172,6 +173,27 @@ theorem C08_interleaving : C08_interleaving_statement := by
   · rw [runFrom_eq_run, runFrom_eq_run, List.append_assoc, List.append_assoc, run_append, run_append,
       run_append, run_append]
     exact obs_of_same _ _ (same_run post _ _ (hg.run seg).wf hsame).2
+
+theorem cardLog_reachable (c : Comp) (h : Reachable c) : LogBibs c ∧ CardLog c := by
+  induction h with
+  | init => exact ⟨(fun b t hm => by cases hm), (fun j hj => by cases hj)⟩
+  | step c op hr ih =>
+    have hg := good_reachable c hr
+    exact ⟨step_LogBibs c op hg.wf ih.1, step_CardLog c op hg.wf hg.flags ih.1 ih.2⟩
+
+/-- **The cards are the log, athlete by athlete**: in every reachable competition the marks on an athlete's card,
+    read left to right across the heights, are exactly that athlete's accepted trials in the order of the action log
+    (so `trials`, which the library derives from the log, and the cards cannot disagree). -/
+theorem C08_cards_are_the_log (c : Comp) (h : Reachable c) (j : Jumper) (hj : j ∈ c.jumpers) :
+    j.card.flatten = marksOf j.bib c.log :=
+  (cardLog_reachable c h).2 j hj
+
+/-- every trial in the log was made by a registered athlete -/
+theorem C08_log_bibs_registered (c : Comp) (h : Reachable c) (b : Nat) (t : Trial) (hm : Op.trial b t ∈ c.log) :
+    (c.find b).isSome := by
+  have := (cardLog_reachable c h).1 b t hm
+  obtain ⟨j, hj, rfl⟩ := List.mem_map.1 this
+  rw [find_of_mem c (good_reachable c h).wf.1 j hj]; rfl
 
 /-! non-vacuity (kernel-evaluated): a history with refused calls; its log replays to the same state -/
 example : (runFrom {} [.add 1, .bar 0, .bar 105, .trial 1 .o, .trial 1 .o, .add 2]).log =
